@@ -95,6 +95,8 @@ func main() {
 	}
 }
 
+var partialRun bool
+
 func cmdCheck(args []string) int {
 	fs := flag.NewFlagSet("check", flag.ExitOnError)
 	tier := fs.String("tier", "", "quick or thorough")
@@ -122,6 +124,7 @@ func cmdCheck(args []string) int {
 		seed, _ = strconv.Atoi(s)
 	}
 	start := time.Now()
+	partialRun = *only != ""
 	curProp = prop
 	timeoutS := 30
 	if *tier == "thorough" {
@@ -614,6 +617,12 @@ func writeEvidence(prop, tier string, seed int, counts *[2]int, samples []any, w
 		"assumptions": assumptions,
 		"wall_s":      round3(wall),
 		"violations":  violations,
+	}
+	if partialRun {
+		// a run restricted with --only is a debugging aid: it must not replace the property's evidence record
+		os.MkdirAll(filepath.Join(verifRoot, "work", "partial"), 0o755)
+		writeJSON(filepath.Join(verifRoot, "work", "partial", prop+".json"), ev)
+		return
 	}
 	writeJSON(filepath.Join(verifRoot, "evidence", prop+".json"), ev)
 }
